@@ -343,7 +343,7 @@ class C04(Engine):
 		'(op kind, failed?) that precede a judged answer. Plus exec-fresh interpreters under other PYTHONHASHSEED values.')
 	quick_runs = 90
 	thorough_runs = 3000
-	quick_budget_s = 100.0
+	quick_budget_s = 90.0
 	thorough_budget_s = 1500.0
 	components_real = ['App/LazyDI wiring', 'Modules', 'ModuleLoader', 'Entrypoints + per-module DI (combine)', 'NodeResolver/Nodes/Node memo', 'SymbolDB', 'all preprocessors', 'Reflections', 'Py2Cpp (Procedure, dependency stack)', 'Renderer', 'Interactive.rebuild_module', 'Runner']
 	components_stubbed = Engine.components_stubbed + ['no terminal: Interactive is driven through rebuild_module/transpile (the loop itself is C07)']
